@@ -265,6 +265,13 @@ def run(ctx: Ctx):
             ctx.fail(cons, f.loc(), f"{f.qualname}: {p}")
             break
 
+    # ---------------- R5 the sent answer is generated per request -------------------------------------
+    from . import c07
+    ctx.include(c07.run, {"C07-R2"}, "C20-R5",
+                "every answer a node handler sends is the object generated from the handled "
+                "request in the same invocation (no cached / copied template whose header is "
+                "shared between answers)", floor=8)
+
 
 def _ctor_header_stores(model) -> dict[str, set[str]]:
     out: dict[str, set[str]] = {}
